@@ -1,9 +1,366 @@
-"""C44 traceback half - filled in later (see c44_positions)."""
+"""C44 traceback half: exceptions raised in compiled code carry the same (function, line) traceback entries as
+CPython running the same source; code objects of compiled functions carry positions inside the function.
+"""
+import ast
+import os
+
+from hypothesis import strategies as st
+
+from vlib import diffmod, harness, hyp, tree
+
+HEADER = '''LOG = []
+
+
+class CM_:
+    def __enter__(self):
+        return self
+
+    def __exit__(self, *a):
+        return False
+
+'''
+
+SETUP = r'''
+import traceback, os, ast, inspect
+
+def TB(thunk):
+    """(exception type, [(function name, line)...]) restricted to frames of the module under test."""
+    modfile = os.path.basename(M.__file__).split(".")[0]
+    try:
+        thunk()
+    except BaseException as e:
+        out = []
+        for fs in traceback.extract_tb(e.__traceback__):
+            base = os.path.basename(fs.filename).split(".")[0]
+            if base == modfile:
+                out.append((fs.name, fs.lineno))
+        chain = []
+        c = e.__cause__ or (None if e.__suppress_context__ else e.__context__)
+        depth = 0
+        while c is not None and depth < 4:
+            chain.append((type(c).__name__, [(fs.name, fs.lineno) for fs in traceback.extract_tb(c.__traceback__)
+                                             if os.path.basename(fs.filename).split(".")[0] == modfile]))
+            c = c.__cause__ or (None if c.__suppress_context__ else c.__context__)
+            depth += 1
+        return (type(e).__name__, out, chain)
+    return ("no exception", [], [])
+
+def POS(fname, lo, hi):
+    """positions/lines of the code object of M.<fname> must lie inside the function's source span lo..hi."""
+    f = getattr(M, fname)
+    code = getattr(f, "__code__", None)
+    if code is None:
+        return ("no __code__",)
+    bad = []
+    if not (lo <= code.co_firstlineno <= hi):
+        bad.append(("firstlineno", code.co_firstlineno))
+    try:
+        for p in code.co_positions():
+            if p[0] is not None and not (lo <= p[0] <= hi):
+                bad.append(("pos", p))
+                break
+        for (_s, _e, ln) in code.co_lines():
+            if ln is not None and not (lo <= ln <= hi):
+                bad.append(("line", ln))
+                break
+    except Exception as e:
+        bad.append(("decode", type(e).__name__))
+    return ("ok", code.co_name, bad)
+'''
+
+RAISERS = [
+    "raise ValueError({k})",
+    "raise KeyError('k{k}')",
+    "LOG.append(1 // (x - x))",
+    "LOG.append([1, 2][x + 10])",
+    "LOG.append({{}}['k{k}'])",
+    "LOG.append(None.attr{k})",
+    "LOG.append(int('z{k}'))",
+    "LOG.append(len(x))",
+    "LOG.append(x + 's')",
+    "assert x < 0, {k}",
+    "LOG.append(next(iter(())))",
+]
+
+
+class TBG:
+    def __init__(self, draw, uid):
+        self.draw = draw
+        self.uid = uid
+        self.n = 0
+        self.feats = set()
+        self.funcs = []      # names of generated top-level functions (callable with (x, sel))
+
+    def pick(self, seq):
+        return self.draw(st.sampled_from(list(seq)))
+
+    def irange(self, a, b):
+        return self.draw(st.integers(a, b))
+
+    def fresh(self, p="t"):
+        self.n += 1
+        return "%s%d" % (p, self.n)
+
+    def filler(self, ind):
+        return ind + self.pick(["y = x + 1", "LOG.append(x)", "z = [x, x]", "pass", "y = str(x)", "z = (x, 1)"])
+
+    def raise_stmt(self, ind, k, callee):
+        """One single-line statement that raises when sel == k."""
+        if callee and self.draw(st.booleans()):
+            self.feats.add("chain")
+            op = "%s(x, sel // 10)" % callee
+            return [ind + "if sel %% 10 == %d: %s" % (k, self.pick(["LOG.append(%s)" % op, "y = %s" % op, "return %s" % op]))]
+        r = self.pick(RAISERS).format(k=k)
+        return [ind + "if sel %% 10 == %d: %s" % (k, r)]
+
+    def body(self, ind, callee, nraise):
+        lines = []
+        ks = list(range(1, nraise + 1))
+        for k in ks:
+            for _ in range(self.irange(0, 2)):
+                lines.append(self.filler(ind))
+            ctx = self.irange(0, 8)
+            rs = self.raise_stmt(ind + "    ", k, callee) if ctx in (1, 2, 3, 4, 5, 6) else self.raise_stmt(ind, k, callee)
+            if ctx == 1:
+                self.feats.add("for")
+                lines += [ind + "for i%d in range(2):" % k] + rs
+            elif ctx == 2:
+                self.feats.add("tryfinally")
+                lines += [ind + "try:"] + rs + [ind + "finally:", ind + "    LOG.append('fin%d')" % k]
+            elif ctx == 3:
+                self.feats.add("with")
+                lines += [ind + "with CM_():"] + rs
+            elif ctx == 4:
+                self.feats.add("reraise")
+                lines += [ind + "try:"] + rs + [ind + "except ValueError:", ind + "    raise"]
+            elif ctx == 5:
+                self.feats.add("raisefrom")
+                lines += [ind + "try:"] + rs + [ind + "except (ValueError, KeyError, TypeError) as e%d:" % k,
+                                                 ind + "    raise RuntimeError(%d) from e%d" % (k, k)]
+            elif ctx == 6:
+                self.feats.add("while")
+                lines += [ind + "while x is not None:"] + rs + [ind + "    break"]
+            else:
+                lines += rs
+        lines.append(self.filler(ind))
+        lines.append(ind + "return x")
+        return lines
+
+    def function(self, callee):
+        name = "f%s_%s" % (self.fresh(""), self.uid)
+        kind = self.pick(["plain", "plain", "closure", "method", "generator", "nested", "staticmethod"])
+        nraise = self.irange(1, 4)
+        self.feats.add("kind:" + kind)
+        if kind == "plain":
+            src = ["def %s(x, sel):" % name] + self.body("    ", callee, nraise)
+        elif kind == "closure":
+            src = ["def %s(x, sel):" % name, "    k = x", "    def inner(sel):", "        x = k"]
+            src += self.body("        ", callee, nraise)
+            src += ["    return inner(sel)"]
+        elif kind == "nested":
+            src = ["def %s(x, sel):" % name, "    def level1(x, sel):", "        def level2(x, sel):"]
+            src += self.body("            ", callee, nraise)
+            src += ["        return level2(x, sel)", "    return level1(x, sel)"]
+        elif kind == "method":
+            cname = "C%s_%s" % (self.fresh(""), self.uid)
+            src = ["class %s:" % cname, "    def meth(self, x, sel):"] + self.body("        ", callee, nraise)
+            src += ["def %s(x, sel):" % name, "    return %s().meth(x, sel)" % cname]
+        elif kind == "staticmethod":
+            cname = "C%s_%s" % (self.fresh(""), self.uid)
+            src = ["class %s:" % cname, "    @staticmethod", "    def smeth(x, sel):"] + self.body("        ", callee, nraise)
+            src += ["def %s(x, sel):" % name, "    return %s.smeth(x, sel)" % cname]
+        else:  # generator
+            gname = "g%s_%s" % (self.fresh(""), self.uid)
+            body = self.body("    ", callee, nraise)
+            body = [l.replace("return x", "yield x") if l.strip() == "return x" else l for l in body]
+            body = [l.replace(": return ", ": yield ") for l in body]
+            src = ["def %s(x, sel):" % gname, "    yield 0"] + body
+            src += ["def %s(x, sel):" % name, "    return list(%s(x, sel))" % gname]
+        return name, src, nraise
+
+
+@st.composite
+def tb_item(draw, uid="U"):
+    g = TBG(draw, uid)
+    depth = draw(st.integers(1, 4))
+    src = []
+    callee = None
+    sels = [0]
+    top = None
+    for level in range(depth):
+        name, fsrc, nraise = g.function(callee)
+        src += fsrc + [""]
+        callee = name
+        top = name
+    # selectors: digits (least significant = outermost function) choosing which raise fires per level
+    cases = []
+    for _ in range(draw(st.integers(3, 6))):
+        sel = 0
+        for lvl in range(depth):
+            sel = sel * 10 + draw(st.integers(0, 4))
+        cases.append(sel)
+    return {"src": "\n".join(src), "top": top, "sels": cases, "depth": depth, "features": sorted(g.feats)}
+
+
+def _spans(module_src):
+    """name -> (first line, last line) for every def (innermost name; unique names by construction)."""
+    out = {}
+    for node in ast.walk(ast.parse(module_src)):
+        if isinstance(node, (ast.FunctionDef, ast.AsyncFunctionDef)):
+            lo = min([node.lineno] + [d.lineno for d in node.decorator_list])
+            out.setdefault(node.name, []).append((lo, node.end_lineno))
+    return out
+
+
+def _shard(arg):
+    seed, shard, nmods, K = arg
+    tree.activate_view()
+    part = harness.Part()
+    outdir = os.path.join(tree.workdir(), "c44tb", "s%d" % shard)
+    for m in range(nmods):
+        raw = hyp.draw_many(tb_item(), K + 1, seed, "c44tb", shard, m)[1:]
+        items = []
+        for i, it in enumerate(raw):
+            uid = "%d_%d_%d" % (shard, m, i)
+            src = it["src"].replace("_U", "_" + uid)
+            top = it["top"].replace("_U", "_" + uid)
+            cases = [{"expr": "TB(lambda: M.%s(%s, %d))" % (top, xv, sel)}
+                     for sel in it["sels"] for xv in ("3",)]
+            items.append({"src": src, "cases": cases, "meta": it, "top": top})
+        name = "c44m_%d_%d" % (shard, m)
+        modsrc = diffmod.render(items, HEADER)
+        spans = _spans(modsrc)
+        # position cases for every top-level function of the module (compiled side only judged by invariant)
+        poscases = []
+        for fname, sp in spans.items():
+            if len(sp) == 1 and fname.startswith("f") and "_" in fname:
+                poscases.append((fname, sp[0]))
+        pos_item = {"src": "", "cases": [{"expr": "POS(%r, %d, %d)" % (fn, lo, hi)} for fn, (lo, hi) in poscases], "meta": None}
+        for sub, res in diffmod.run_batch_isolating(items + [pos_item], name, outdir, header=HEADER, setup=SETUP,
+                                                    directives={"binding": True}):
+            if res.status in ("cyerror", "ccerror"):
+                part.count("build_" + res.status, len(sub))
+                continue
+            if res.status == "import-diff":
+                part.count("import_diff")
+                continue
+            for it, refs, gots in zip(sub, res.ref, res.got):
+                if it["meta"] is None:
+                    if len(sub) != len(items) + 1:
+                        continue   # line numbers shifted by dropped items: spans no longer valid
+                    for (fn, span), g in zip(poscases, gots):
+                        ok = g[0] == "ok" and g[1][0] == "tuple" and g[1][1][0] == ["str", "'ok'"] and g[1][1][2] == ["list", []]
+                        part.case(["pos", name, fn], True, "codeobj:" + ("ok" if ok else "bad"))
+                        if not ok:
+                            part.violation("codeobj-positions", {"kind": "tb", "header": HEADER, "src": modsrc[len(HEADER):],
+                                                                 "exprs": ["POS(%r, %d, %d)" % (fn, span[0], span[1])], "posonly": True},
+                                           "code object of %s has positions outside its source span %s: %s" % (fn, span, diffmod.json_short(g)))
+                    continue
+                meta = it["meta"]
+                for c, r, g in zip(it["cases"], refs, gots):
+                    raised = r[0] == "ok" and r[1][1][0] != ["str", "'no exception'"]
+                    nt = raised and (meta["depth"] >= 2 or any(f in meta["features"] for f in ("tryfinally", "with", "reraise", "raisefrom")))
+                    part.case([it["src"], c["expr"]], nt, ["tb:depth%d" % meta["depth"]] + ["tb:" + f for f in meta["features"]],
+                              sample={"kind": "traceback", "src": it["src"][:1200], "call": c["expr"], "cpython": diffmod.json_short(r, 400)})
+                    cls = _classify(r, g) if "timeout" not in (r[0], g[0]) else None
+                    if cls is not None:
+                        part.violation("tb:" + cls, {"kind": "tb", "header": HEADER, "src": it["src"], "exprs": [c["expr"]]},
+                                       "%s: CPython %s vs compiled %s" % (c["expr"], diffmod.json_short(r, 500), diffmod.json_short(g, 500)))
+    return part
+
+
+def _norm(o):
+    """Normalise a TB() outcome: function names -> last dotted component (Cython reports 'module.qualname',
+    CPython co_name; both name the same function)."""
+    try:
+        if o[0] != "ok":
+            return o
+        import copy
+        o = copy.deepcopy(o)
+        t = o[1][1]
+
+        def fix(frames):
+            for fr in frames[1]:
+                nm = fr[1][0]
+                if nm[0] == "str":
+                    fr[1][0] = ["str", repr(eval(nm[1]).split(".")[-1])]
+        fix(t[1])
+        for ch in t[2][1]:
+            fix(ch[1][1])
+        return o
+    except Exception:
+        return o
+
+
+def _frames(o):
+    return [(eval(fr[1][0][1]), int(fr[1][1][1])) for fr in o[1][1][1][1]]
+
+
+def _dedup(frames):
+    out = []
+    for f in frames:
+        if out and out[-1][0] == f[0]:
+            out[-1] = f
+        else:
+            out.append(f)
+    return out
+
+
+def _classify(r, g):
+    """None if equivalent, else a class string."""
+    r, g = _norm(r), _norm(g)
+    if r == g:
+        return None
+    try:
+        if r[0] != "ok" or g[0] != "ok":
+            return "outcome:%s->%s" % (r[0], g[0])
+        rt, gt = r[1][1], g[1][1]
+        if rt[0] != gt[0]:
+            return "exctype"
+        rf, gf = _frames(r), _frames(g)
+        if rt[0] == ["str", "'RuntimeError'"] and "StopIteration" in str(rt[2]) and rf != gf:
+            return "pep479"         # StopIteration -> RuntimeError conversion inside a generator
+        if rf != gf:
+            if _dedup(gf) == rf:
+                return "dupframe"       # extra entries for a function that already has one (re-raise / finally)
+            if len(rf) != len(gf):
+                return "frames"
+            for a, b in zip(rf, gf):
+                if a[0] != b[0]:
+                    return "funcname"
+                if a[1] != b[1]:
+                    return "lineno"
+        if rt[2] != gt[2]:
+            return "chain"
+        return "log"
+    except Exception:
+        return "other"
 
 
 def run(ctx):
-    return
+    nmods = 1 if ctx.quick else 12
+    ctx.pmap(_shard, [(ctx.seed, s, nmods, 14) for s in range(8)])
+    ctx.rule += (" || tracebacks: Hypothesis call chains of 1-4 generated functions (plain/closure/nested/method/staticmethod/"
+                 "generator) with 1-4 single-line raising statements each (explicit raise, failing call/index/attribute/division, "
+                 "assert) inside for/while/with/try-finally/re-raise/raise-from contexts; the selector digits choose which "
+                 "statement fires at which level; oracle = same source under CPython: exception type, [(function, line)] of the "
+                 "module's traceback entries in order, and the same for the __cause__/__context__ chain; plus an invariant on every "
+                 "compiled top-level function: co_firstlineno, co_positions() and co_lines() lie inside the function's ast span. "
+                 "non-trivial traceback case = an exception was raised and depth>=2 or raise inside try/finally/with/re-raise")
 
 
 def replay(ctx, case):
-    return False, "no traceback replay yet"
+    outdir = os.path.join(ctx.work, "c44tbreplay")
+    items = [{"src": case["src"], "cases": [{"expr": e} for e in case["exprs"]]}]
+    res = diffmod.run_batch(items, "c44replay", outdir, header=case.get("header", HEADER), setup=SETUP,
+                            directives={"binding": True})
+    if res.status != "ok":
+        return True, "build status %s: %s" % (res.status, str(res.detail)[:300])
+    for e, r, g in zip(case["exprs"], res.ref[0], res.got[0]):
+        if case.get("posonly"):
+            ok = g[0] == "ok" and g[1][1][0] == ["str", "'ok'"] and g[1][1][2] == ["list", []]
+            if not ok:
+                return True, "%s -> %s" % (e, diffmod.json_short(g))
+        elif _classify(r, g) is not None:
+            return True, "%s: CPython %s vs compiled %s" % (e, diffmod.json_short(r, 500), diffmod.json_short(g, 500))
+    return False, "tracebacks agree"
